@@ -2008,6 +2008,16 @@ func (ts *TokenStore) revokeInternal(ctx context.Context, saltedID string, skipO
 		return nil
 	}
 
+	// Until the deferred cleanup further down is installed, a failure has to
+	// clear the pending state itself; otherwise every later attempt to revoke
+	// this token short-circuits above and reports success without revoking.
+	cleanupDeferred := false
+	defer func() {
+		if ret != nil && !cleanupDeferred {
+			ts.tokensPendingDeletion.Store(saltedID, false)
+		}
+	}()
+
 	// The map check above should protect use from any concurrent revocations, so
 	// we do another lookup here to make sure we have the right state
 	entry, err := ts.lookupInternal(ctx, saltedID, true, true)
@@ -2026,7 +2036,7 @@ func (ts *TokenStore) revokeInternal(ctx context.Context, saltedID string, skipO
 			// really work either. So we clear revocation state so the user can
 			// try again.
 			ts.logger.Error("failed to mark token as revoked")
-			ts.tokensPendingDeletion.Store(entry.ID, false)
+			ts.tokensPendingDeletion.Store(saltedID, false)
 			return err
 		}
 	}
@@ -2039,6 +2049,7 @@ func (ts *TokenStore) revokeInternal(ctx context.Context, saltedID string, skipO
 		return namespace.ErrNoNamespace
 	}
 
+	cleanupDeferred = true
 	defer func() {
 		// If we succeeded in all other revocation operations after this defer and
 		// before we return, we can remove the token store entry
